@@ -479,8 +479,10 @@ def evaluate(modname, cases, jobs, case_timeout):
         return out
     n = jobs * 4
     chunks = [indexed[i::n] for i in range(n)]
-    with multiprocessing.get_context("fork").Pool(jobs, initializer=_limit_worker_memory) as pool:
-        parts = pool.map(_eval_chunk, [(modname, c, case_timeout) for c in chunks if c])
+    # ProcessPoolExecutor raises BrokenProcessPool when a worker is killed (e.g. by the OOM killer); Pool.map would wait for ever
+    from concurrent.futures import ProcessPoolExecutor
+    with ProcessPoolExecutor(jobs, mp_context=multiprocessing.get_context("fork"), initializer=_limit_worker_memory) as pool:
+        parts = list(pool.map(_eval_chunk, [(modname, c, case_timeout) for c in chunks if c]))
     out = [r for part, hits in parts for r in part]
     for part, hits in parts:
         COVERAGE_HITS.update(hits)
@@ -496,8 +498,9 @@ def ask_model_parallel(driver, reqs, jobs):
     n = jobs
     size = (len(reqs) + n - 1) // n
     parts = [reqs[i:i + size] for i in range(0, len(reqs), size)]
-    with multiprocessing.get_context("fork").Pool(len(parts)) as pool:
-        res = pool.map(ModelDriver(driver).ask, parts)
+    from concurrent.futures import ProcessPoolExecutor
+    with ProcessPoolExecutor(len(parts), mp_context=multiprocessing.get_context("fork")) as pool:
+        res = list(pool.map(ModelDriver(driver).ask, parts))
     return [r for part in res for r in part]
 
 
@@ -560,6 +563,15 @@ def run_check(modname, argv=None):
     # ---- 1. Lean: build, source scan, axiom audit -------------------------------------------------
     theorems = list(getattr(mod, "THEOREMS", []))
     lean_modules = list(getattr(mod, "LEAN_MODULES", []))
+    lean_sources = list(getattr(mod, "LEAN_SOURCES", []))
+    # bridge theorems (agreement of the independent transcriptions of the same Python code in different property
+    # models, LenaModel/Bridge/*.lean) are audited with the properties whose models they relate: harness/bridges.json
+    bfile = VERIF / "harness" / "bridges.json"
+    if bfile.exists() and not getattr(mod, "EVIDENCE_NAME", None):
+        b = json.loads(bfile.read_text()).get(pid, {})
+        theorems += [t for t in b.get("theorems", []) if t not in theorems]
+        lean_modules += [m for m in b.get("modules", []) if m not in lean_modules]
+        lean_sources += [f for f in b.get("sources", []) if f not in lean_sources]
     proof_ok, proof_problems, axioms = True, [], {}
     build_ok = True
     if hasattr(mod, "pre_build"):
@@ -570,12 +582,12 @@ def run_check(modname, argv=None):
         if not build_ok:
             proof_ok = False
             proof_problems.append({"what": "lake build failed", "modules": lean_modules, "log": build_log[-3000:]})
-        hits = scan_sources(getattr(mod, "LEAN_SOURCES", []))
+        hits = scan_sources(lean_sources)
         if hits:
             proof_ok = False
             proof_problems.append({"what": "forbidden construct in Lean sources", "hits": hits})
         if build_ok:
-            axioms, audit_log = audit_axioms(pid, lean_modules, theorems)
+            axioms, audit_log = audit_axioms(getattr(mod, "EVIDENCE_NAME", pid), lean_modules, theorems)
             for t in theorems:
                 ax = axioms.get(t)
                 if ax is None:
